@@ -4,13 +4,16 @@
 (* is the product of canonical set-ups of <= 2 unions with an operation mix per thread:                            *)
 (*   Setups(n): {} ; u(a,b) a<b ; u(a,b),u(c,d) disjoint ; u(a,b),u(c,b) -- one representative per distinct       *)
 (*              forest that <= 2 sequential unions over n nodes can build (22 for n = 4, 7 for n = 3).             *)
-(*   Pairs4   : 2 threads x 1 op, ALL unordered pairs of the 28 ordered-argument ops over 4 nodes      (quick)     *)
-(*   Three3   : 3 threads x 1 op, all multisets of the 9 ops (a<b) over 3 nodes                         (quick)     *)
-(*   TwoOne3  : 2 threads, 2 ops + 1 op, ops (a<b) over 3 nodes                                         (quick)     *)
-(*   Dup4     : duplicate / overlapping unions after a pre-history, followed by <= 2 observers (find / sameSet):   *)
-(*              2 threads x <= 3 ops over 4 nodes                                                        (quick)     *)
-(*   TwoTwo3  : 2 threads x 2 ops, ops (a<b) over 3 nodes                                               (thorough)  *)
-(*   Three4   : 3 threads x 1 op, all multisets of the 16 ops (a<b) over 4 nodes                        (thorough)  *)
+(*   PairsLt(3): 2 threads x 1 op, all unordered pairs of the 9 ops with a<b over 3 nodes               (quick)     *)
+(*   DupQ(4)   : duplicate / overlapping unions after a pre-history + <= 1 observer (3 ops in total)    (quick)     *)
+(*   PairsLt(4): 2 threads x 1 op, all unordered pairs of the 16 ops with a<b over 4 nodes             (thorough)  *)
+(*   PairsU(4) : 2 threads x 1 op, ALL unordered pairs of the 28 ordered-argument ops over 4 nodes      (thorough)  *)
+(*   Dup(4)    : duplicate / overlapping unions after a pre-history, followed by <= 2 observers (find / sameSet):  *)
+(*               2 threads x <= 3 ops over 4 nodes                                                       (thorough)  *)
+(*   Three(3)  : 3 threads x 1 op, all multisets of the 9 ops (a<b) over 3 nodes                        (thorough)  *)
+(*   TwoOne(3) : 2 threads, 2 ops + 1 op, ops (a<b) over 3 nodes                                        (thorough)  *)
+(*   TwoTwo(3) : 2 threads x 2 ops, ops (a<b) over 3 nodes                                              (thorough)  *)
+(*   ThreeR(4) : 3 threads x 1 op over 4 nodes, 4 set-ups x multisets of 8 selected ops                 (thorough)  *)
 (*   Replay*  : the spaces whose state graphs are dumped and replayed on the real object.                          *)
 (* Every space is an operator with a parameter: TLC evaluates zero-arity constant definitions eagerly at start-up,  *)
 (* so the one space a run uses is instantiated by a small module MC_UnionFind_<family>.tla (Space == Family(n)).     *)
@@ -50,10 +53,14 @@ Dup(n) == DupOn(0, 1) \cup DupOn(0, 2)
         \cup {Conf(<<U(0, 1), U(2, 3)>>, <<<<U(1, 3)>> \o o1, <<u2>> \o o2>>) :
                    u2 \in {U(1, 3), U(3, 1), U(0, 2)}, o1 \in Obs(0, 2), o2 \in {<<>>, <<F(0)>>, <<S(0, 2)>>}}
 
+PairsLt(n) == {c \in {Conf(s, <<<<o1>>, <<o2>>>>) : s \in CSetups(n), o1, o2 \in OpsLt(n)} : Enc(c.prog[1][1]) <= Enc(c.prog[2][1])}
+DupQ(n) == {c \in Dup(n) : Len(c.prog[1]) + Len(c.prog[2]) <= 3}
 \* replay spaces (graph dumped, covering walks replayed on the real DisjointSet)
 RSet(n) == {<<>>, <<U(0, 2)>>, <<U(0, 1), U(2, 3)>>, <<U(0, 2), U(1, 2)>>}
 ROps(n) == {U(2, 3), U(3, 2), U(0, 3), U(1, 3), S(2, 3), S(0, 3), F(0), F(3)}
 ReplayQ(n) == {c \in {Conf(s, <<<<o1>>, <<o2>>>>) : s \in RSet(n), o1, o2 \in ROps(n)} : Enc(c.prog[1][1]) <= Enc(c.prog[2][1])}
+ThreeR(n) == {c \in {Conf(s, <<<<o1>>, <<o2>>, <<o3>>>>) : s \in RSet(n), o1, o2, o3 \in ROps(n)} :
+                 Enc(c.prog[1][1]) <= Enc(c.prog[2][1]) /\ Enc(c.prog[2][1]) <= Enc(c.prog[3][1])}
 ReplayT(n) == {Conf(s, <<<<o1>>, <<o2>>>>) : s \in CSetups(n), o1, o2 \in OpsLt(n)}
             \cup {c \in Dup(n) : Len(c.prog[1]) + Len(c.prog[2]) <= 4}
 
